@@ -45,7 +45,7 @@ impl<const N: usize> Read for ArrFile<N> {
                 // byte-wise for small transfers: keeps CBMC's constant
                 // propagation alive (memcpy of an array region does not)
                 let mut i = 0;
-                while i < n {
+                while i < n && i < SMALL {
                     buf[i] = self.data[self.pos + i];
                     i += 1;
                 }
@@ -66,7 +66,7 @@ impl<const N: usize> Write for ArrFile<N> {
         if n > 0 {
             if n <= SMALL {
                 let mut i = 0;
-                while i < n {
+                while i < n && i < SMALL {
                     self.data[self.pos + i] = buf[i];
                     i += 1;
                 }
@@ -145,7 +145,7 @@ impl<const N: usize> Read for PtrFile<N> {
             let d = self.d();
             if n <= SMALL {
                 let mut i = 0;
-                while i < n {
+                while i < n && i < SMALL {
                     buf[i] = d[pos + i];
                     i += 1;
                 }
@@ -168,7 +168,7 @@ impl<const N: usize> Write for PtrFile<N> {
             let d = self.d_mut();
             if n <= SMALL {
                 let mut i = 0;
-                while i < n {
+                while i < n && i < SMALL {
                     d[pos + i] = buf[i];
                     i += 1;
                 }
